@@ -32,12 +32,21 @@ type tOp struct {
 	D    time.Duration // period for creation, amount for advance
 	Cb   time.Duration // callback running time (creation)
 	Mode string        // advance: rel (D) | due-1 | due | due+1 (relative to timer I's next due)
+	Self int           // interval: its own callback cancels it on the Self-th tick (0 = never)
+	Now  bool          // creation: cancel immediately, before the timer goroutine had a chance to run
 }
 
 func (o tOp) String() string {
 	switch o.Kind {
 	case "timeout", "interval":
-		return fmt.Sprintf("%s#%d(d=%v,cb=%v)", o.Kind, o.I, o.D, o.Cb)
+		x := ""
+		if o.Self > 0 {
+			x += fmt.Sprintf(",selfClear@%d", o.Self)
+		}
+		if o.Now {
+			x += ",cancelAtOnce"
+		}
+		return fmt.Sprintf("%s#%d(d=%v,cb=%v%s)", o.Kind, o.I, o.D, o.Cb, x)
 	case "advance":
 		if o.Mode == "rel" {
 			return fmt.Sprintf("advance(%v)", o.D)
@@ -50,6 +59,7 @@ func (o tOp) String() string {
 }
 
 type genTimer struct {
+	self      bool
 	interval  bool
 	d         time.Duration
 	cancelled bool
@@ -100,8 +110,17 @@ func genC19Script(rt *rapid.T, gates bool) []tOp {
 			if rapid.IntRange(0, 3).Draw(rt, l+".cbk") == 0 {
 				cb = time.Duration(rapid.Int64Range(1, int64(3*d)+1000).Draw(rt, l+".cb"))
 			}
-			ts = append(ts, genTimer{interval: k == "interval", d: d})
-			ops = append(ops, tOp{Kind: k, I: len(ts) - 1, D: d, Cb: cb})
+			o := tOp{Kind: k, I: len(ts), D: d, Cb: cb}
+			switch rapid.IntRange(0, 7).Draw(rt, l+".variant") {
+			case 0:
+				o.Now = true
+			case 1:
+				if k == "interval" {
+					o.Self = rapid.IntRange(1, 3).Draw(rt, l+".self")
+				}
+			}
+			ts = append(ts, genTimer{interval: k == "interval", d: d, cancelled: o.Now, self: o.Self > 0})
+			ops = append(ops, o)
 		case "advance":
 			cnt, minD := liveIntervals()
 			maxAdv := int64(30 * time.Second)
@@ -117,7 +136,7 @@ func genC19Script(rt *rapid.T, gates bool) []tOp {
 			ops = append(ops, tOp{Kind: k})
 		case "refresh", "refreshAtDue":
 			i := rapid.IntRange(0, len(ts)-1).Draw(rt, l+".i")
-			if ts[i].interval && (k == "refreshAtDue" || ts[i].cancelled) {
+			if ts[i].interval && (k == "refreshAtDue" || ts[i].cancelled || ts[i].self) {
 				// refreshing an interval at its tick instant or after its
 				// cancellation is outside what callers do and what the
 				// statement fixes; draw something else
@@ -157,17 +176,20 @@ type mTimer struct {
 	armed    bool
 	due      time.Duration
 	t        *utils.Timer
+	self     int // cancels itself from its own callback on this tick
+	fires    int
 	exp      []time.Duration // mandatory callback start instants
 	opt      []time.Duration // optional ones (operation raced with the due instant)
 }
 
 type c19World struct {
-	mu    sync.Mutex
-	t0    time.Time
-	obs   [][]time.Duration
-	ts    []*mTimer
-	fails []string
-	stats map[string]bool
+	mu       sync.Mutex
+	t0       time.Time
+	obs      [][]time.Duration
+	ts       []*mTimer
+	fails    []string
+	stats    map[string]bool
+	selfDone []func() bool
 }
 
 func (w *c19World) now() time.Duration { return time.Since(w.t0) }
@@ -193,7 +215,8 @@ func (w *c19World) settleTo(now time.Duration, skip int) {
 			} else {
 				m.exp = append(m.exp, m.due)
 			}
-			if m.interval {
+			m.fires++
+			if m.interval && !(m.self > 0 && m.fires >= m.self) {
 				m.due += m.d
 			} else {
 				m.armed = false
@@ -203,6 +226,12 @@ func (w *c19World) settleTo(now time.Duration, skip int) {
 }
 
 func (w *c19World) check(what string) {
+	for i, f := range w.selfDone {
+		if !f() {
+			w.fails = append(w.fails, fmt.Sprintf("@%v after %s: ClearInterval called by interval #%d from its own callback has not returned at a quiescent point", time.Since(w.t0), what, i))
+			return
+		}
+	}
 	w.mu.Lock()
 	defer w.mu.Unlock()
 	for i, m := range w.ts {
@@ -279,7 +308,9 @@ func runC19(ops []tOp, w *c19World) {
 		switch o.Kind {
 		case "timeout", "interval":
 			i := len(w.ts)
-			m := &mTimer{interval: o.Kind == "interval", d: o.D, cb: o.Cb, armed: true, due: w.now() + o.D}
+			m := &mTimer{interval: o.Kind == "interval", d: o.D, cb: o.Cb, armed: true, due: w.now() + o.D, self: o.Self}
+			selfDone := true
+			nCalls := 0
 			if o.Cb > maxCb {
 				maxCb = o.Cb
 			}
@@ -290,15 +321,38 @@ func runC19(ops []tOp, w *c19World) {
 			fn := func() {
 				w.mu.Lock()
 				w.obs[i] = append(w.obs[i], w.now())
+				nCalls++
+				mine := o.Self > 0 && nCalls == o.Self
+				if mine {
+					selfDone = false
+					w.stats["self-cancel-from-callback"] = true
+				}
 				w.mu.Unlock()
+				if mine {
+					// the usual "stop after n ticks" idiom: must not block
+					utils.ClearInterval(m.t)
+					w.mu.Lock()
+					selfDone = true
+					w.mu.Unlock()
+				}
 				if o.Cb > 0 {
 					time.Sleep(o.Cb)
 				}
 			}
+			w.selfDone = append(w.selfDone, func() bool { w.mu.Lock(); defer w.mu.Unlock(); return selfDone })
 			if m.interval {
 				m.t = utils.SetInterval(fn, o.D)
 			} else {
 				m.t = utils.SetTimeout(fn, o.D)
+			}
+			if o.Now {
+				// cancel before the timer's goroutine has run at all
+				w.stats["cancel-right-after-arm"] = true
+				if o.D == 0 {
+					m.opt = append(m.opt, w.now())
+				}
+				m.armed = false
+				w.prompt(what+" (cancelled at once)", func() { utils.ClearTimeout(m.t) })
 			}
 			Settle()
 			w.settleTo(w.now(), -1)
@@ -372,7 +426,17 @@ func runC19(ops []tOp, w *c19World) {
 				}
 			}
 			if d == 0 {
-				continue
+				// too many ticks of a faster interval in between: do the operation now instead
+				if o.Kind == "clearAtDue" {
+					w.prompt(what, func() { utils.ClearTimeout(m.t) })
+					m.armed = false
+				} else {
+					m.t.Refresh()
+					m.armed, m.due = true, w.now()+m.d
+					Settle()
+					w.settleTo(w.now(), -1)
+				}
+				break
 			}
 			w.stats[o.Kind] = true
 			returned := false
@@ -420,6 +484,10 @@ func runC19(ops []tOp, w *c19World) {
 				delete(g.plan, gp)
 				g.mu.Unlock()
 				w.settleTo(w.now(), -1)
+				if o.Kind == "gateTickClear" {
+					w.prompt(what, func() { utils.ClearInterval(m.t) })
+					m.armed = false
+				}
 				break
 			}
 			w.stats[o.Kind] = true
@@ -526,7 +594,7 @@ func TestC19Timers(t *testing.T) {
 	col := NewCollector("TestC19Timers",
 		"rapid: scripts of 2-14 operations over <=4 timers (SetTimeout/SetInterval with boundary-biased periods and callback running times, Refresh, Stop, ClearTimeout/ClearInterval incl. nil, two concurrent cancellations, cancellation/refresh issued by another goroutine at exactly the due instant, advances to due-1ns/due/due+1ns/random) executed in a synctest bubble next to a reference model; oracle: callback start instants equal the model's exactly (a call racing with the due instant makes that one start optional), every cancellation returns in zero virtual time, no goroutine left after cancelling everything. non-trivial: the script contains an advance to within 1ns of a due instant, a refresh of a pending timer, a concurrent cancellation or an operation at the due instant").Use(t)
 	rapid.Check(t, c19Property(t, col, false))
-	col.RequireClasses(t, "advance.due-1", "advance.due", "advance.due+1", "refresh.pending", "refresh.fired-or-stopped", "concurrent-cancel", "clearAtDue", "refreshAtDue", "has-interval")
+	col.RequireClasses(t, "advance.due-1", "advance.due", "advance.due+1", "refresh.pending", "refresh.fired-or-stopped", "concurrent-cancel", "clearAtDue", "refreshAtDue", "has-interval", "self-cancel-from-callback", "cancel-right-after-arm")
 }
 
 func TestC19TimersGated(t *testing.T) {
